@@ -205,6 +205,7 @@ worker_error(worker_thread *thr, lzma_ret ret)
 	assert(ret != LZMA_STREAM_END);
 
 	mythread_sync(thr->coder->mutex) {
+		VERIF_VISIT(VERIF_D_MT_ENC, VERIF_MTE_THREAD_ERROR);
 		if (thr->coder->thread_error == LZMA_OK)
 			thr->coder->thread_error = ret;
 
@@ -331,6 +332,7 @@ worker_encode(worker_thread *thr, size_t *out_pos, worker_state state)
 
 		// Do the encoding. This takes care of the Block Header too.
 		*out_pos = 0;
+		VERIF_VISIT(VERIF_D_MT_ENC, VERIF_MTE_INCOMPRESSIBLE);
 		ret = lzma_block_uncomp_encode(&thr->block_options,
 				thr->in, in_size, thr->outbuf->buf,
 				out_pos, out_size);
@@ -473,6 +475,9 @@ threads_stop(lzma_stream_coder *coder, bool wait_for_threads)
 static void
 threads_end(lzma_stream_coder *coder, const lzma_allocator *allocator)
 {
+	if (coder->threads_initialized > 0)
+		VERIF_VISIT(VERIF_D_MT_ENC, VERIF_MTE_THREADS_END);
+
 	for (uint32_t i = 0; i < coder->threads_initialized; ++i) {
 		mythread_sync(coder->threads[i].mutex) {
 			coder->threads[i].state = THR_EXIT;
@@ -561,6 +566,7 @@ get_thread(lzma_stream_coder *coder, const lzma_allocator *allocator)
 		if (coder->threads_free != NULL) {
 			coder->thr = coder->threads_free;
 			coder->threads_free = coder->threads_free->next;
+			VERIF_VISIT(VERIF_D_MT_ENC, VERIF_MTE_WORKER_REUSE);
 		}
 	}
 
@@ -570,6 +576,7 @@ get_thread(lzma_stream_coder *coder, const lzma_allocator *allocator)
 			return LZMA_OK;
 
 		// Initialize a new thread.
+		VERIF_VISIT(VERIF_D_MT_ENC, VERIF_MTE_THREAD_START);
 		return_if_error(initialize_new_thread(coder, allocator));
 	}
 
@@ -622,6 +629,9 @@ stream_encode_in(lzma_stream_coder *coder, const lzma_allocator *allocator,
 		// TODO: LZMA_SYNC_FLUSH and LZMA_SYNC_BARRIER.
 		const bool finish = thr_in_size == coder->block_size
 				|| (*in_pos == in_size && action != LZMA_RUN);
+
+		if (finish && thr_in_size != coder->block_size)
+			VERIF_VISIT(VERIF_D_MT_ENC, VERIF_MTE_FLUSH_BLOCK);
 
 		bool block_error = false;
 
@@ -699,6 +709,7 @@ wait_for_work(lzma_stream_coder *coder, mythread_condtime *wait_abs,
 				&& !lzma_outq_is_readable(&coder->outq)
 				&& coder->thread_error == LZMA_OK
 				&& !timed_out) {
+			VERIF_VISIT(VERIF_D_MT_ENC, VERIF_MTE_WAIT);
 			if (coder->timeout != 0)
 				timed_out = mythread_cond_timedwait(
 						&coder->cond, &coder->mutex,
@@ -708,6 +719,9 @@ wait_for_work(lzma_stream_coder *coder, mythread_condtime *wait_abs,
 						&coder->mutex);
 		}
 	}
+
+	if (timed_out)
+		VERIF_VISIT(VERIF_D_MT_ENC, VERIF_MTE_TIMED_OUT);
 
 	return timed_out;
 }
@@ -945,6 +959,7 @@ stream_encoder_mt_update(void *coder_ptr, const lzma_allocator *allocator,
 
 	// Copy the new filter chain in place.
 	memcpy(coder->filters, temp, sizeof(temp));
+	VERIF_VISIT(VERIF_D_MT_ENC, VERIF_MTE_FILTERS_UPDATE);
 
 	return LZMA_OK;
 }
@@ -1110,6 +1125,9 @@ stream_encoder_mt_init(lzma_next_coder *next, const lzma_allocator *allocator,
 	// Allocate the thread-specific base structures.
 	assert(options->threads > 0);
 	if (coder->threads_max != options->threads) {
+		if (coder->threads_initialized > 0)
+			VERIF_VISIT(VERIF_D_MT_ENC, VERIF_MTE_REINIT_END);
+
 		threads_end(coder, allocator);
 
 		coder->threads = NULL;
@@ -1128,6 +1146,9 @@ stream_encoder_mt_init(lzma_next_coder *next, const lzma_allocator *allocator,
 	} else {
 		// Reuse the old structures and threads. Tell the running
 		// threads to stop and wait until they have stopped.
+		if (coder->threads_initialized > 0)
+			VERIF_VISIT(VERIF_D_MT_ENC, VERIF_MTE_REINIT_REUSE);
+
 		threads_stop(coder, true);
 	}
 
